@@ -22,6 +22,7 @@ import (
 	"github.com/tsawler/tabula/font"
 	"github.com/tsawler/tabula/rag"
 	"github.com/tsawler/tabula/reader"
+	"github.com/tsawler/tabula/resolver"
 	"github.com/tsawler/tabula/xlsx"
 )
 
@@ -65,6 +66,25 @@ func c02Call(entry, path string) {
 		tabula.Open(path).ByColumn().Text()
 		tabula.Open(path).PreserveLayout().Text()
 		tabula.Open(path).Pages(1, 2).Text()
+	case "objects":
+		// the object-level API of the PDF reader: every object looked up, and expanded with all its references
+		rd, err := reader.Open(path)
+		if err != nil {
+			return
+		}
+		defer rd.Close()
+		for n := 0; n <= 24; n++ {
+			rd.GetObject(n)
+		}
+		// one expansion per way of asking (each is bounded by the library; a job is metered as a whole)
+		if t := rd.Trailer(); t != nil {
+			rd.ResolveDeep(t)
+		}
+		rd.ResolveDeep(core.IndirectRef{Number: 2})
+		if o, err := rd.GetObject(3); err == nil {
+			rd.ResolveDeep(o)
+		}
+		resolver.NewResolver(rd).ResolveDeep(core.IndirectRef{Number: 1})
 	case "raw":
 		// the parsers that take bytes
 		data, err := os.ReadFile(path)
@@ -612,6 +632,10 @@ func init() {
 			}
 			jobs = append(jobs, c02Job{id: id, entry: "raw", path: path, kind: format + ":" + fault})
 			id++
+			if format == "pdf" {
+				jobs = append(jobs, c02Job{id: id, entry: "objects", path: path, kind: format + ":" + fault})
+				id++
+			}
 			dist[format+":"+fault]++
 		}
 		words := func(n int, tag string) []string {
@@ -905,6 +929,47 @@ func c02Directed(rng *RNG) []c02Fault {
 		rows = append(rows, 0, 0, 0, 255, 1, 0, 9, 0, 2, 0, 3, 0, 1, byte(so>>8), byte(so), 0, 1, byte(x>>8), byte(x), 0)
 		fmt.Fprintf(&b, "4 0 obj\n%s\nendobj\nstartxref\n%d\n%%%%EOF\n", c02StreamObj("/Type /XRef /Root 1 0 R /Size 5 /W [1 2 1]", rows), x)
 		add("objstm:"+name, b.Bytes())
+	}
+	// filter chains whose /DecodeParms do not match the /Filter array
+	hex2 := []byte(fmt.Sprintf("%X>", []byte(fmt.Sprintf("%X>", []byte("BT /F1 12 Tf 72 700 Td (hello) Tj ET")))))
+	for name, d := range map[string]string{
+		"parms-shorter":    "/Filter [/ASCIIHexDecode /ASCIIHexDecode] /DecodeParms [null]",
+		"parms-empty":      "/Filter [/ASCIIHexDecode /ASCIIHexDecode] /DecodeParms []",
+		"parms-longer":     "/Filter [/ASCIIHexDecode /ASCIIHexDecode] /DecodeParms [null null null << /Predictor 12 >>]",
+		"parms-not-dicts":  "/Filter [/ASCIIHexDecode /ASCIIHexDecode] /DecodeParms [7 (x)]",
+		"parms-for-a-name": "/Filter /ASCIIHexDecode /DecodeParms [null null]",
+		"filter-empty":     "/Filter [] /DecodeParms [null]",
+		"filter-not-names": "/Filter [7 null] /DecodeParms [null null]",
+	} {
+		o := base()
+		o[4] = c02StreamObj(d, hex2)
+		add("filters:"+name, c02RawPDF(o, ""))
+	}
+	// ToUnicode programs cut off at every third byte, and with unbalanced delimiters in every section
+	{
+		cm := "/CIDInit /ProcSet findresource begin 12 dict begin begincmap 1 begincodespacerange <00> <FF> endcodespacerange 2 beginbfchar <68> <0048> <65> <0045> endbfchar 2 beginbfrange <6C> <6D> <004C> <6F> <70> [<004F> <0050>] endbfrange endcmap end end"
+		mk := func(prog string) []byte {
+			o := base()
+			o[3] = "<< /Type /Font /Subtype /TrueType /BaseFont /ABCDEF+X /FirstChar 32 /LastChar 32 /Widths [250] /ToUnicode 6 0 R >>"
+			o = append(o, c02StreamObj("", []byte(prog)))
+			return c02RawPDF(o, "")
+		}
+		for cut := 60; cut < len(cm); cut += 3 {
+			add(fmt.Sprintf("tounicode-cut-%d", cut), mk(cm[:cut]))
+		}
+		for name, prog := range map[string]string{
+			"bfrange-open-hex":     "1 begincodespacerange <00> <FF> endcodespacerange 1 beginbfrange <50> <52> <00 endbfrange",
+			"bfrange-open-array":   "1 begincodespacerange <00> <FF> endcodespacerange 1 beginbfrange <50> <52> [<0041> <0042> endbfrange",
+			"bfrange-close-first":  "1 begincodespacerange <00> <FF> endcodespacerange 1 beginbfrange > <50> ] <52> <0041> endbfrange",
+			"bfrange-reversed":     "1 begincodespacerange <00> <FF> endcodespacerange 1 beginbfrange <52> <50> <0041> endbfrange",
+			"bfrange-huge":         "1 begincodespacerange <00000000> <FFFFFFFF> endcodespacerange 1 beginbfrange <00000000> <FFFFFFFF> <0041> endbfrange",
+			"bfchar-open-hex":      "1 begincodespacerange <00> <FF> endcodespacerange 1 beginbfchar <50> <00 endbfchar",
+			"codespace-open-hex":   "1 begincodespacerange <00> <FF endcodespacerange",
+			"sections-never-close": "1 begincodespacerange <00> <FF> 1 beginbfrange <50> <52> <0041> 1 beginbfchar <41> <0041>",
+			"odd-digits":           "1 begincodespacerange <0> <FFF> endcodespacerange 1 beginbfrange <5> <52> <041> endbfrange",
+		} {
+			add("tounicode:"+name, mk(prog))
+		}
 	}
 	return out
 }
